@@ -801,11 +801,18 @@ class Fn:
         return sum(isinstance(n.ctx, ast.Store) for n in uses) == 1 and all(
             isinstance(n.ctx, ast.Store) or id(n) in ok for n in uses) and name not in [a.arg for a in self.f.args.args]
 
+    def no_iterator_over(self, node, cn, env):
+        """an iterator is translated as the (Coq name of the) list it runs over: that name must not be rebound while it lives"""
+        for key, val in env.items():
+            if not key.startswith("@") and isinstance(val[0], tuple) and val[0][0] == "iter" and re.search(r"\b%s\b" % re.escape(cn), val[1]):
+                bad(node, "%s is rebound or mutated while the iterator %s over it is live" % (cn, key))
+
     def bind_local(self, node, x, ty, env, value_node=None):
         """env after binding local x (a value of type ty) to its own Coq name"""
         if x in ("self", "_ipv4", "_ipv6"):
             bad(node, "rebinding of %s" % x)
         cn, env = self.coqname(node, x), dict(env)
+        self.no_iterator_over(node, cn, env)
         env[x] = (ty, cn)
         if value_node is not None:
             env["@taint"] = env["@taint"] | {x} if self.tainted(value_node, env) else env["@taint"] - {x}
@@ -1091,6 +1098,7 @@ class Fn:
                 bad(s, "fuel expression that can raise")
         env2 = {key: val for key, val in env.items() if key not in carried}
         for x in live:
+            self.no_iterator_over(s, self.coqname(s, x), env)
             env2[x] = (env[x][0], self.coqname(s, x))
         env2["@taint"] = ienv["@taint"] - (set(assigned) - set(live))
         if it and env[it][0][0] == "iter":
